@@ -277,6 +277,20 @@ theorem simple_draws : ∀ (g : Gate), simple g = true → ∀ (bits : List Nat)
       · show sa.controlled = s1.controlled
         exact hc1
 
+/-- A multi-qubit block gate at a covered placement, outside any range, is ONE stage. -/
+theorem block_draws {d : String} {n : Nat} {bits : List Nat} {s s' : St} (hinv : Inv s)
+    (hok : blockOk d n bits = true) (h : latex (.box d n) bits s = .ok s') : Draws s s' [blockWrites d bits] := by
+  obtain ⟨f, l, more, _, hne, hws, he⟩ := blockOk_latex hok s
+  obtain ⟨hnd, hrows, hclosed, _, _⟩ := blockOk_facts hok
+  rw [he] at h
+  obtain ⟨sx, hx, _⟩ := Res.bind_eq_ok.mp h
+  refine range_draws (ws := blockWrites d bits) hinv (getBitIndices_none_ok_of_start hx) hne ?_ hrows hnd hclosed h
+  intro s1 s2 hrn hcn _ _ _ _ hb
+  obtain ⟨sa, ha, hb2⟩ := Res.bind_eq_ok.mp hb
+  obtain ⟨hw1, hr1, hc1⟩ := drawRange_inRange hrn hcn ha
+  obtain ⟨hw2, hr2, hc2⟩ := blockRest_inRange more l sa s2 (by rw [hr1]; exact hrn) hw1.rcols_ne hb2
+  exact ⟨by rw [hws]; exact hw1.trans hw2, hr2.trans hr1, hc2.trans hc1⟩
+
 /-! ## Loops -/
 
 theorem reserveAll_ctl (s : St) : (reserveAll s).controlled = s.controlled ∧ (reserveAll s).cur = s.cur := by
@@ -329,7 +343,7 @@ mutual
 /-- The stages a gate of the proved class is drawn as: one stage per one-column sub-gate, in program
 order; `I` is the explicit wire; a loop of 3 or more iterations is body, `\cds`, body. -/
 def gateStages : Gate → List Nat → Bool → List (List (Nat × Sym))
-  | .box l n, bits, ctl => [writes (.box l n) bits ctl]
+  | .box l n, bits, ctl => if blockOk l n bits then [blockWrites l bits] else [writes (.box l n) bits ctl]
   | .x, bits, ctl => [writes .x bits ctl]
   | .z, bits, ctl => [writes .z bits ctl]
   | .swap, bits, ctl => [writes .swap bits ctl]
@@ -362,8 +376,12 @@ mutual
 theorem latex_draws : ∀ (g : Gate) (bits : List Nat) (s s' : St), Inv s → s.expand = true → topOk g bits = true →
     latex g bits s = .ok s' → Draws s s' (gateStages g bits s.controlled)
   | .box l n, bits, s, s', hinv, _, ht, h => by
-    simp only [topOk, Bool.and_eq_true, decide_eq_true_eq] at ht
-    simpa [gateStages] using simple_draws _ ht.1.1 bits s s' hinv ht.1.2 ht.2 h
+    simp only [topOk, Bool.or_eq_true, Bool.and_eq_true, decide_eq_true_eq] at ht
+    rcases ht with ht | ht
+    · have hn : n = 1 := by simpa [simple] using ht.1.1
+      have hb : blockOk l n bits = false := by subst hn; simp [blockOk]
+      simpa [gateStages, hb] using simple_draws _ ht.1.1 bits s s' hinv ht.1.2 ht.2 h
+    · simpa [gateStages, ht] using block_draws hinv ht h
   | .x, bits, s, s', hinv, _, ht, h => by
     simp only [topOk] at ht
     have hn : bits.Nodup := by
